@@ -149,7 +149,7 @@ class NumericType(ScalarType):
 
     def __truediv__(self, other):
         return binary_arithmetic_operation(
-            "Division", "/", self, other, lambda lhs, rhs: lhs / rhs
+            "Division", "/", self, other, lambda lhs, rhs: lhs // rhs
         )
 
     def __mod__(self, other):
